@@ -4,7 +4,7 @@ import math
 from hypothesis import strategies as st
 
 from .. import repo, strategies as S
-from ..core import SubCheck, Fail, Discard, metric, target
+from ..core import SubCheck, Fail, Discard, metric, target, is_seq
 
 RULE = ("plane coordinates up to 1e7 m (incl. adjacent floats, axis-aligned pairs), bearings over the full circle incl. the axes "
         "+-1e-13; zenith angles in (0, 180) and (180, 360), slope 0.1 m..50 km, heights +-5 m; wavelength 0.4..1.6 um, "
@@ -28,7 +28,7 @@ def check_join_radiate(case):
     e1, n1, e2, n2 = case["e1"], case["n1"], case["e2"], case["n2"]
     nk = case.get("num", "float")
     r = sv.joins(S.as_kind(e1, nk), S.as_kind(n1, nk), S.as_kind(e2, nk), S.as_kind(n2, nk))
-    if not (isinstance(r, tuple) and len(r) == 2):
+    if not is_seq(r, 2):
         raise Fail("joins did not return (distance, bearing)", observed=repr(r))
     d, brg = r
     if not (0.0 <= brg < 360.0):
@@ -92,7 +92,7 @@ def check_va(case):
     sv = repo.mod("geodepy.survey")
     z, sd, hi, ht = case["zen"], case["slope"], case["hi"], case["ht"]
     r0 = sv.va_conv(z, sd)
-    if not (isinstance(r0, tuple) and len(r0) == 4):
+    if not is_seq(r0, 4):
         raise Fail("va_conv did not return 4 values", observed=repr(r0))
     va0, sd0, hz0, dh0 = r0
     if not abs(hz0 * hz0 + dh0 * dh0 - sd * sd) <= 1e-12 * sd * sd:
@@ -185,13 +185,22 @@ def check_dispersion(case):
     g = sv.group_refractivity(lam, T, P, e, co2)
     p = sv.phase_refractivity(lam, T, P, e, co2)
     tol = 1e-9
+    dp = None
     try:
         h = 1e-30
-        dp = sv.phase_refractivity(complex(lam, h), T, P, e, co2).imag / h
-    except TypeError:
+        z = sv.phase_refractivity(complex(lam, h), T, P, e, co2)
+        if isinstance(z, complex) and z.imag != 0.0 and abs(z.real - p) <= 1e-12 * abs(p):
+            dp = z.imag / h                  # complex-step derivative (only if the routine really carried the imaginary part)
+    except Exception:                         # noqa: the routine does not take complex input - use real differences
+        dp = None
+    if dp is None:
+        # central differences with every sample inside the quantified carrier range [0.4, 1.6] um
         hh = 1e-3 * lam
+        c = min(max(lam, 0.4 + 2 * hh), 1.6 - 2 * hh)
         f = lambda x: sv.phase_refractivity(x, T, P, e, co2)       # noqa
-        dp = (-f(lam + 2 * hh) + 8 * f(lam + hh) - 8 * f(lam - hh) + f(lam - 2 * hh)) / (12 * hh)
+        d1 = (-f(c + 2 * hh) + 8 * f(c + hh) - 8 * f(c - hh) + f(c - 2 * hh)) / (12 * hh)
+        d2 = (-f(c + 2 * hh) + 16 * f(c + hh) - 30 * f(c) + 16 * f(c - hh) - f(c - 2 * hh)) / (12 * hh * hh)
+        dp = d1 + d2 * (lam - c)              # first-order transfer from the stencil centre to lam
         tol = 1e-6
     want = p - lam * dp          # n_g = n_p + sigma dn_p/dsigma = n_p - lambda dn_p/dlambda
     rel = abs(g - want) / abs(want)
